@@ -40,9 +40,25 @@ R1    (1) loop located by role (the `for` over self.tsteps / self.rsteps), (5) w
       completing path on each side, compared as sets with each other and with the reference opcode tables (6); the OTHER
       case must end in `raise ValueError` on every path (2, 3).
 R2    (3) final accumulator term per codec step peeled structurally into codec call / case mapping / constant padding
-      layers; (1) callee resolution; (6) comparison with the reference inverse-pair table; constant padding folded (6).
+      layers; (1) callee resolution; the codec call is reduced to (family, direction, alphabet) by the reference codec
+      vocabulary of this module (6): base64.b64encode/b64decode with their `altchars` argument (absent / None = b"+/"),
+      standard_b64*, urlsafe_b64* (b"-_"), binascii.b2a_base64(newline=False) / a2b_base64; utils.netbios_encode/decode with
+      their `offset` argument bound by parameter (1) and folded (6: constant expression, `ord` of a constant, a class-level
+      / module-level name bound once).  The pair is compared with the reference inverse-pair table on that triple, never on
+      the function's name: the wire alphabet of a step (base64 b"+/", base64url b"-_", netbios 'a'..'p' = 0x61, netbiosu
+      'A'..'P' = 0x41) must be what the encoder emits and what the decoder is handed.  (4) the netbios alphabet is the
+      interval [offset, offset + 15], taken through `.lower()` / `.upper()` layers by lemma case-shift; constant padding
+      folded (6).  Another binary-to-text codec of the standard library (base32/16/85, hex, uu, MIME line wrapping), a
+      package function that is not the codec, the wrong direction or alphabet -> VIOLATED; a callee outside the
+      vocabulary, a non-constant alphabet / offset, strict decoding (`validate=True`), an alphabet interval straddling a
+      case boundary -> undecided.
       Lemma base64-pad: Cobalt Strike strips at most two '=', CPython's decoders ignore surplus '=', hence `data + b"="*k`
-      with k >= 2 repairs every stripped input (trusted base64 semantics).
+      with k >= 2 repairs every stripped input (trusted base64 semantics).  Lemma base64-alias: standard_b64encode(s) is
+      b64encode(s), urlsafe_b64encode(s) is b64encode(s, altchars=b"-_"), b2a_base64(s, newline=False) is b64encode(s), and
+      the same for the decoders (documented behaviour of the base64 / binascii modules).  Lemma netbios-offset:
+      netbios_encode(x, offset) emits per nibble n the byte n + offset, netbios_decode(y, offset) inverts exactly that
+      (bodies trusted, see not_decided).  Lemma case-shift: bytes.lower() adds 0x20 to exactly the bytes 0x41..0x5A,
+      bytes.upper() subtracts 0x20 from exactly 0x61..0x7A, all other bytes are kept.
 R3    (3) terms of the request-field locals and of the accumulator after placement steps, compared structurally
       (`%setitem(field, arg, acc)`, `uri + acc`, `http.<field>[arg]`); (6) reference placement table.
 R4    (3) terms written by the static decorations; taint = the accumulator symbol occurs in the term (1); split shape
@@ -1379,7 +1395,8 @@ def run(ctx):
         "the path - giving per step the final symbolic term of the payload accumulator and of the request fields.  "
         "Nothing is evaluated on concrete payloads, byte arguments or programs (the build selector is the only argument "
         "specialised, per literal of its vocabulary).  These summaries must cover "
-        "everything the parsers emit, pair each encoder with its reference decoder, write and read the same HTTP "
+        "everything the parsers emit, pair each encoder with its reference decoder (judged by codec family, direction and alphabet - base64 altchars, netbios offset "
+        "and case mappings - not by the spelling of the library call), write and read the same HTTP "
         "location, keep static decorations away from the payload, mirror prepend/append sides (including the `x[:-n]` "
         "zero hazard), use one mask length, bind build selectors to the like-named C2Data fields, replace the payload on "
         "every path of a build step (each build block carries only its own field), and update in place only containers of "
@@ -1417,6 +1434,11 @@ def run(ctx):
         "(otherwise the class default); dict(m) / m.copy() / {**m} have the entries of m; a dict entry holds the value of the latest store to its key",
         "lifetime: module-level and class-level bindings, instance attributes and parameter defaults outlive a call; a dict display / dict(..) / .copy() evaluated in the call is a new object",
         "lemma base64-pad: at most two '=' are stripped and CPython's base64 decoders ignore surplus padding, so appending >= 2 '=' repairs the input",
+        "lemma base64-alias (R2): base64.standard_b64encode/decode are b64encode/b64decode, urlsafe_b64encode/decode are b64encode/b64decode with altchars=b'-_', "
+        "binascii.b2a_base64(s, newline=False) / a2b_base64(s) are b64encode(s) / non-validating b64decode(s); altchars=None means b'+/' (documented library behaviour)",
+        "lemma netbios-offset (R2): utils.netbios_encode(x, offset) emits nibble + offset for each nibble (alphabet [offset, offset + 15]) and netbios_decode(y, offset) inverts it; "
+        "lemma case-shift: bytes.lower() adds 0x20 to exactly 0x41..0x5A and bytes.upper() subtracts 0x20 from exactly 0x61..0x7A, so an alphabet interval inside the mapped range "
+        "moves as a whole and one disjoint from it is unchanged",
         "lemma split: partition(s)[0]/[2] and split(s, 1)[0]/[1] split at the first s, rpartition/rsplit at the last",
         "lemmas slice-drop / neg-zero / or-none: x[:len(x)-n] drops the last n bytes for 0 <= n <= len(x); x[:-n] does so only for n > 0 (x[:-0] == b''); x[:-n or None] for all n >= 0",
         "lemma filler: b'c' * n and bytes(n) have length n for an int n >= 0",
@@ -1586,8 +1608,130 @@ def _layers(ctx, f, e: ast.AST, acc: str):
     return None
 
 
+# Reference codec vocabulary (device 6).  The standard library spells the two base64 codecs of the inverse-pair table in several
+# documented ways; a call is reduced to (family, direction, alphabet) and compared on that, never on the function's name.
+#   fq -> (direction, fixed alphabet | None = chosen by the `altchars` parameter, names of the positional parameters after the data)
+_B64_STD, _B64_URL = b"+/", b"-_"
+_B64_CALLS = {
+    "base64.b64encode": ("enc", None, ("altchars",)),
+    "base64.standard_b64encode": ("enc", _B64_STD, ()),
+    "base64.urlsafe_b64encode": ("enc", _B64_URL, ()),
+    "binascii.b2a_base64": ("enc", _B64_STD, ()),
+    "base64.b64decode": ("dec", None, ("altchars", "validate")),
+    "base64.standard_b64decode": ("dec", _B64_STD, ()),
+    "base64.urlsafe_b64decode": ("dec", _B64_URL, ()),
+    "binascii.a2b_base64": ("dec", _B64_STD, ()),
+}
+_B64_OPTIONS = {"base64.b64encode": {"altchars"}, "base64.b64decode": {"altchars", "validate"}, "binascii.b2a_base64": {"newline"},
+                "binascii.a2b_base64": {"strict_mode"}}
+_NETBIOS_CALLS = {"utils.netbios_encode": "enc", "utils.netbios_decode": "dec"}
+# other binary-to-text codecs of the standard library: a different wire format, whatever their arguments
+_FOREIGN_CODECS = {
+    "base64." + n + d for n in ("b32", "b32hex", "b16", "a85", "b85", "z85") for d in ("encode", "decode")
+} | {"base64.encodebytes", "base64.decodebytes", "base64.encodestring", "base64.decodestring", "binascii.hexlify", "binascii.unhexlify",
+     "binascii.b2a_hex", "binascii.a2b_hex", "binascii.b2a_uu", "binascii.a2b_uu", "binascii.b2a_qp", "binascii.a2b_qp", "bytes.fromhex"}
+_WIRE_ALPHABET = {"base64": _B64_STD, "base64url": _B64_URL, "netbios": 0x61, "netbiosu": 0x41}
+
+
+def _const_of(side: _Side, e: Optional[ast.AST]):
+    """Constant value of an argument term: a constant expression, or a module-level / class-level name bound once to one."""
+    v = _cv(e) if e is not None else _NC
+    if v is _NC and isinstance(e, ast.Call) and dotted(e.func) == "ord" and len(e.args) == 1 and not e.keywords:
+        c = _const_of(side, e.args[0])  # ord of a one-character constant: constant folding (6)
+        if isinstance(c, (str, bytes)) and len(c) == 1:
+            return ord(c)
+    if v is _NC and e is not None:
+        g = side.ex._global_value(e)
+        v = _cv(g) if g is not None else _NC
+    return v
+
+
+def _codec(ctx, side: _Side, f, call: ast.Call):
+    """A call as a codec of the reference vocabulary: {"fq", "family" base64|netbios|foreign, "dir" enc|dec, "alphabet" (the two
+    bytes that stand for the values 62 / 63, or the netbios offset; None = not a constant), "problems", "unknown"}; None when
+    the callee is not in the vocabulary."""
+    fq = _callee(ctx, f, call)
+    if fq is None:
+        return None
+    out = {"fq": fq, "family": None, "dir": None, "alphabet": None, "problems": [], "unknown": []}
+    if fq in _FOREIGN_CODECS:
+        out.update(family="foreign", dir="dec" if ("decode" in fq or "a2b" in fq or "unhex" in fq or "fromhex" in fq) else "enc")
+        return out
+    if fq in _NETBIOS_CALLS:
+        cal = ctx.rs.resolve_call(f, call)
+        out.update(family="netbios", dir=_NETBIOS_CALLS[fq])
+        try:
+            b = dict(bind_args(call, cal.func.node))
+            b.update(cal.bound or {})
+        except Exception:
+            b = None
+        if not b or "offset" not in b or b["offset"] is None:
+            out["unknown"].append(f"the offset argument of {src(call)} could not be bound")
+            return out
+        v = _const_of(side, b["offset"])
+        if isinstance(v, int) and not isinstance(v, bool):
+            out["alphabet"] = v
+        else:
+            out["unknown"].append(f"the offset {src(b['offset'])} of {fq} is not a constant")
+        return out
+    if fq not in _B64_CALLS:
+        return None
+    d, alpha, posnames = _B64_CALLS[fq]
+    out.update(family="base64", dir=d, alphabet=alpha)
+    opts: Dict[str, ast.AST] = {}
+    extra = list(call.args[1:]) if call.args else []
+    if any(isinstance(a, ast.Starred) for a in call.args) or any(k.arg is None for k in call.keywords) or len(extra) > len(posnames):
+        out["unknown"].append(f"the arguments of {src(call)} could not be bound")
+        out["alphabet"] = None
+        return out
+    for n, a in zip(posnames, extra):
+        opts[n] = a
+    for k in call.keywords:
+        if k.arg in _B64_OPTIONS.get(fq, ()):
+            opts[k.arg] = k.value
+        elif k.arg not in ("s", "data") or call.args:
+            out["unknown"].append(f"{fq} has no documented parameter {k.arg}")
+    if alpha is None:
+        a = opts.get("altchars")
+        v = None if a is None else _const_of(side, a)
+        if v is None:
+            out["alphabet"] = _B64_STD
+        elif isinstance(v, (bytes, bytearray)):
+            out["alphabet"] = bytes(v)
+        else:
+            out["unknown"].append(f"the alternative alphabet {src(a)} of {fq} is not a bytes constant")
+    for n in ("validate", "strict_mode"):
+        if n in opts and _const_of(side, opts[n]) not in (False, None, 0):
+            # strict decoding rejects surplus '=' in some CPython versions and accepts it in others: lemma base64-pad does not apply
+            out["unknown"].append(f"{fq} is called with {n}={src(opts[n])}: whether the repaired padding is accepted is not decided")
+    if fq == "binascii.b2a_base64":
+        v = _const_of(side, opts["newline"]) if "newline" in opts else True
+        if v is _NC:
+            out["unknown"].append(f"newline={src(opts['newline'])} of binascii.b2a_base64 is not a constant")
+        elif v:
+            out["problems"].append("binascii.b2a_base64 appends a newline to the encoded payload (newline=False required)")
+    return out
+
+
+def _case_shift(base: int, how: str) -> Optional[int]:
+    """The netbios alphabet [base, base + 15] after bytes.lower() / bytes.upper(), in the interval domain (device 4).
+    Lemma case-shift: lower() adds 0x20 to exactly the bytes in [0x41, 0x5A] and upper() subtracts 0x20 from exactly the bytes
+    in [0x61, 0x7A]; every other byte is kept.  An interval inside the mapped range is shifted as a whole, one disjoint from
+    it is kept; an interval that straddles a boundary is no longer `nibble + offset` (None)."""
+    lo, hi = base, base + 15
+    a, b, delta = (0x41, 0x5A, 0x20) if how == "lower" else (0x61, 0x7A, -0x20)
+    if a <= lo and hi <= b:
+        return base + delta
+    if hi < a or lo > b:
+        return base
+    return None
+
+
+def _alpha_text(a) -> str:
+    return f"{a!r}" if isinstance(a, bytes) else (f"0x{a:02X}.." + f"0x{a + 15:02X}" if isinstance(a, int) else "?")
+
+
 def r2(ctx, T, R, tt, rt):
-    codecs = {x for pair in tables.INVERSE_PAIRS.values() for x in pair}
     for step, (enc, dec) in tables.INVERSE_PAIRS.items():
         if step == "mask":
             continue
@@ -1604,12 +1748,14 @@ def r2(ctx, T, R, tt, rt):
             continue
         te, re_ = tv[0][0], rv[0][0]
         tl, rl = _layers(ctx, T, te, tt.acc), _layers(ctx, R, re_, rt.acc)
+        family = "netbios" if step.startswith("netbios") else "base64"
+        wire = _WIRE_ALPHABET[step]  # what Cobalt Strike puts on the wire for this step
         problems, unknown = [], []
-        for side, f, val, lay, want in (("transform", T, te, tl, enc), ("recover", R, re_, rl, dec)):
+        for side, sd, f, val, lay, want, wdir in (("transform", tt, T, te, tl, enc, "enc"), ("recover", rt, R, re_, rl, dec, "dec")):
             if lay is None:
-                seen = {_callee(ctx, f, n) for n in ast.walk(val) if isinstance(n, ast.Call)}
-                if want not in seen and (seen & codecs):
-                    problems.append(f"{side} uses {sorted(seen & codecs)} (required {want})")
+                seen = [c for c in (_codec(ctx, sd, f, n) for n in ast.walk(val) if isinstance(n, ast.Call)) if c is not None]
+                if seen and not any(c["family"] == family and c["dir"] == wdir for c in seen):
+                    problems.append(f"{side} uses {sorted(c['fq'] for c in seen)} (required {want})")
                 else:
                     unknown.append(f"{side} value {src(val)} is not a chain of codec call / case change / padding over the accumulator")
                 continue
@@ -1623,35 +1769,64 @@ def r2(ctx, T, R, tt, rt):
             if calls[0][1] is None:
                 unknown.append(f"{side}: callee of {src(calls[0][2].func)} not resolved")
                 continue
-            if calls[0][1] != want:
-                problems.append(f"{side} calls {calls[0][1]} (required {want})")
+            cd = _codec(ctx, sd, f, calls[0][2])
+            if cd is None:
+                if ctx.rs.resolve_call(f, calls[0][2]).kind in ("func", "class", "struct"):
+                    problems.append(f"{side} calls {calls[0][1]} (required {want})")  # a function of the package that is not the codec
+                else:
+                    unknown.append(f"{side} calls {calls[0][1]}, which is not in the reference codec vocabulary")
                 continue
+            if cd["family"] != family or cd["dir"] != wdir:
+                problems.append(f"{side} calls {cd['fq']} (required {want})")
+                continue
+            problems += cd["problems"]
+            unknown += cd["unknown"]
+            alpha = cd["alphabet"]
             i = lay.index(calls[0])
             outer, inner = lay[:i], lay[i + 1:]
+            ocase, icase = [l[1] for l in outer if l[0] == "case"], [l[1] for l in inner if l[0] == "case"]
             if side == "transform":
-                case = next((l[1] for l in outer if l[0] == "case"), None)
                 if any(l[0] == "pad" for l in lay):
                     problems.append("transform appends constant bytes around the encoder")
-                if any(l[0] == "case" for l in inner):
+                if icase:
                     problems.append("transform changes the case of the payload before encoding")
-                if step == "netbios" and case != "lower":
-                    problems.append(f"netbios must emit lower case (case handling after the encoder: {case})")
-                elif step == "netbiosu" and case not in (None, "upper"):
-                    problems.append(f"netbiosu must emit upper case (case handling after the encoder: {case})")
-                elif step.startswith("base64") and case is not None:
-                    problems.append(f"{step} output is case sensitive but is passed through .{case}()")
+                if family == "netbios":
+                    # alphabet on the wire = the encoder's [offset, offset + 15] taken through the case mappings applied to its output
+                    for how in reversed(ocase):
+                        alpha = _case_shift(alpha, how) if alpha is not None else None
+                    if alpha is None:
+                        if not cd["unknown"]:
+                            unknown.append(f"the alphabet of {src(val)} is not `nibble + constant`")
+                    elif alpha != wire:
+                        problems.append(f"{step} must emit {'lower' if step == 'netbios' else 'upper'} case: the alphabet {_alpha_text(wire)} "
+                                        f"(encoder offset and case handling {ocase or None} give {_alpha_text(alpha)})")
+                else:
+                    if ocase:
+                        problems.append(f"{step} output is case sensitive but is passed through .{ocase[0]}()")
+                    if alpha is not None and alpha != wire:
+                        problems.append(f"{step} must be encoded with the alphabet characters {wire!r} for 62/63 ({enc}); {cd['fq']} is called with {alpha!r}")
             else:
                 if outer:
                     problems.append(f"recover post-processes the decoded payload: {[l[:2] for l in outer]}")
-                case = next((l[1] for l in inner if l[0] == "case"), None)
                 pads = [l[1] for l in inner if l[0] == "pad"]
-                if step == "netbios" and case != "upper":
-                    problems.append(f"netbios input is lower case and must be upper-cased before decoding (case handling: {case})")
-                elif step == "netbiosu" and case not in (None, "upper"):
-                    problems.append(f"netbiosu input must not be lower-cased (case handling: {case})")
-                elif step.startswith("base64"):
-                    if case is not None:
-                        problems.append(f"{step} input is case sensitive but is passed through .{case}()")
+                if family == "netbios":
+                    if pads:
+                        problems.append(f"recover appends {pads} to the {step} input")
+                    # the wire alphabet taken through the case mappings applied before decoding must be the decoder's alphabet
+                    got = wire
+                    for how in reversed(icase):
+                        got = _case_shift(got, how) if got is not None else None
+                    if alpha is None or got is None:
+                        if not cd["unknown"]:
+                            unknown.append(f"the alphabet handed to the decoder in {src(val)} is not `nibble + constant`")
+                    elif got != alpha:
+                        problems.append(f"{step} arrives in the alphabet {_alpha_text(wire)}, case handling {icase or None} turns it into {_alpha_text(got)}, "
+                                        f"but the decoder expects {_alpha_text(alpha)}" + (" (the lower-case input must be upper-cased before decoding)" if step == "netbios" and not icase else ""))
+                else:
+                    if icase:
+                        problems.append(f"{step} input is case sensitive but is passed through .{icase[0]}()")
+                    if alpha is not None and alpha != wire:
+                        problems.append(f"{step} must be decoded with the alphabet characters {wire!r} for 62/63 ({dec}); {cd['fq']} is called with {alpha!r}")
                     # Cobalt Strike emits these without '=' padding: the decoder input must be data + b"==" (>= 2 pad bytes)
                     if not pads:
                         if _is(strip_cast([a for a in list(calls[0][2].args) + [k.value for k in calls[0][2].keywords] if _mentions(a, rt.acc)][0]), rt.acc):
@@ -1660,14 +1835,12 @@ def r2(ctx, T, R, tt, rt):
                             unknown.append("padding repair not recognised")
                     elif set(b"".join(pads)) != {0x3D} or len(b"".join(pads)) < 2:
                         problems.append(f"padding repair appends {b''.join(pads)!r} (at least b'==' required)")
-                elif pads:
-                    problems.append(f"recover appends {pads} to the {step} input")
         if problems:
             ctx.ob("R2", "AGREE", T, text, False, "; ".join(problems) + f" [transform: {src(te)}; recover: {src(re_)}]")
         elif unknown:
             ctx.undecided("R2", "AGREE", T, text, "; ".join(unknown))
         else:
-            ctx.ob("R2", "AGREE", T, text, True, f"transform: {src(te)} (encoder {enc}); recover: {src(re_)} (decoder {dec}); case handling and padding repair as required")
+            ctx.ob("R2", "AGREE", T, text, True, f"transform: {src(te)} (encoder {enc}); recover: {src(re_)} (decoder {dec}); wire alphabet {_alpha_text(wire)}, case handling and padding repair as required")
     # netbios codec offsets: default offset shared
     enc, dec = ctx.repo.func("utils.netbios_encode"), ctx.repo.func("utils.netbios_decode")
     de, dd = _c(param_defaults(enc.node).get("offset")), _c(param_defaults(dec.node).get("offset"))
